@@ -9,8 +9,12 @@ from oracle import geom
 
 
 @st.composite
-def simple_polygon(draw, max_n=24, kinds=("star", "comb", "spiral", "lattice", "convex", "untangled")):
+def simple_polygon(draw, max_n=24, kinds=("star", "comb", "spiral", "lattice", "lattice_free", "convex", "untangled")):
     kind = draw(st.sampled_from(kinds))
+    if kind == "lattice_free":
+        n = draw(st.integers(4, min(9, max_n)))
+        pts = draw(st.lists(st.tuples(st.integers(0, 6), st.integers(0, 6)), min_size=n, max_size=n, unique=True))
+        return {"kind": kind, "pts": [list(p) for p in pts]}
     if kind == "star":
         n = draw(st.integers(3, max_n))
         return {"kind": kind, "n": n, "noise": draw(noise(2 * n))}
@@ -99,6 +103,11 @@ def _build_polygon_xy_raw(case):
         return _ensure_ccw(P)
     if k == "lattice":
         return np.array(build_lattice_polygon(case), dtype=float)
+    if k == "lattice_free":
+        # integer points untangled by 2-opt: many vertices share x or y, edges in general direction
+        P = _untangle(np.array(case["pts"], dtype=float))
+        P = np.array(_dedupe_collinear_int([tuple(int(v) for v in q) for q in P]), dtype=float)
+        return _ensure_ccw(P) if len(P) >= 3 else P
     if k == "convex":
         from gen.zoo import convex_polygon_xy
 
